@@ -4,7 +4,7 @@ from . import register
 from .c20 import affected_fields
 from ..analysis import (backslice, aggregates, agg_field, closure_creation, forward_locals, direct_def, variant_arms, dominated_region,
                         switch_on_result_of, comparisons, branch_of, direct_field, switch_targets_bool, base_named_local)
-from ..facts import op_local, const_int, const_val
+from ..facts import place_fields, op_local, const_int, const_val
 
 DOC = {
     'explanation': 'Decided: the same script value feeds the printer or the executor (R1); per FsCommand variant the shell lines printed by to_shell_str correspond, operation by operation '
@@ -17,6 +17,7 @@ DOC = {
         'C11.R2': 'execute vs to_shell_str per variant: Remove rm(file); SoftLink/HardLink mv(link,tmp) ln[-s](target,link) rm(tmp); RefLink mv cp--reflink rm; Move mv | cp+rm; execute and space_to_reclaim return the same field\'s length',
         'C11.R3': 'every path interpolated into a shell line derives from Path::quote',
         'C11.R4': 'dedupe: enumerate before par_bridge, one (index, commands) item per group; log_script: every received item is pushed, emitted iff index == next, next += 1 per pop, priority Reverse(index)',
+        'C11.R9': 'the commands of one group may depend on each other (a symbolic link and the file it points to): run_script executes the commands of a group one after another in script order (FsCommand::execute is applied by a sequential iterator over the group\'s vector, parallelism is across groups), and dedupe_script puts the commands for symbolic links first (stable sort of to_drop by link-ness)',
         'C11.R8': 'the real run does not fail on files the printed script handles: the lock needs no write permission on the file (re-evaluates C20.R6)',
         'C11.R7': 'the real run has no failure mode that the printed script lacks for a link member: the lock is not taken through a symbolic link (re-evaluates C20.R5)',
         'C11.R6': 'the quoting applied to every operand is the lossless one (re-evaluates C17.R2, C17.R3, C17.R4)',
@@ -97,6 +98,7 @@ def run(ctx):
     from . import c20
     reevaluate(ctx, 'C11.R7', c20.r5, ctx.lib)
     reevaluate(ctx, 'C11.R8', c20.r6, ctx.lib)
+    r9(ctx)
     from .common import run_mandatory
     run_mandatory(ctx, 'C11')
 
@@ -402,3 +404,42 @@ def r6(ctx):
         o['detail'] = '[%s] %s' % (o['rule'], o['detail'])
         o['rule'] = 'C11.R6'
     ctx.rules_run.add('C11.R6')
+
+
+def r9(ctx):
+    rule = 'C11.R9'
+    lib = ctx.lib
+    rs = ctx.need_body(rule, 'dedupe::run_script')
+    ds = ctx.need_body(rule, 'dedupe::PartitionedFileGroup::dedupe_script')
+    if rs is None or ds is None:
+        return
+    from ..analysis import closure_creation
+    # where is execute() applied?
+    site = None
+    for cp in lib.closures_of(rs.path):
+        cb = lib.body(cp)
+        if cb.calls(r'dedupe::FsCommand::execute$'):
+            cr = closure_creation(lib, cp)
+            if cr:
+                pb, bi, st = cr
+                for c in pb.calls():
+                    if any(op_local(a) == st['p'][0] or st['p'][0] in backslice(pb, [a]).locals for a in c.args[1:]):
+                        site = (pb, c)
+    if site is None:
+        ctx.missing(rule, 'the adaptor that applies FsCommand::execute in run_script', rs.where())
+    else:
+        pb, c = site
+        seq = c.matches(r'^std::iter::Iterator::(map|for_each|filter_map)$|^core::iter')
+        ctx.check(seq, rule, rs.path + '|group-commands-in-order', c.where(), 'execute() is applied by a sequential iterator over the commands of one group',
+                  'execute() is the item function of %s: the commands of one group run in parallel / in arbitrary order although they depend on each other - with a -S report `move` renames the file M '
+                  'before the link Z -> M is copied through, the copy fails, Z is left behind dangling and one file less is processed than --dry-run announces' % c.path)
+    srt = [c for c in ds.calls(r'::(sort_by_key|sort_by|sort_by_cached_key)$') if 'to_drop' in backslice(ds, [c.args[0]]).field_names()]
+    ok = False
+    for c in srt:
+        l = op_local(c.args[1]) if len(c.args) > 1 else None
+        cp = lib.closure_of_type(ds.local_ty(l)) if l is not None else None
+        cb = lib.body(cp) if cp else None
+        if cb is not None and any('link_metadata' in place_fields(st['rv'].get('p') or [0, []]) for blk in cb.blocks for st in blk['stmts'] if st['rv'].get('p')):
+            ok = True
+    ctx.check(ok, rule, ds.path + '|links-first', (srt[0].where() if srt else ds.where()), 'to_drop is stably sorted so that symbolic links come before real files',
+              'the dropped files are processed in report (path) order: a link whose target sorts before it is handled after the target has been removed / moved')
